@@ -3,13 +3,14 @@
   number of steps of the unpipelined machine (`tick_sim`).
 -/
 import MajoranaVerif.Proofs.Mvp60SlBack
+import MajoranaVerif.Proofs.Mvp60Flush
 open GoInt
 
 set_option linter.unusedSimpArgs false
 set_option linter.unusedVariables false
 
 namespace Proofs.Mvp60Sl
-open Model Model.Mvp60
+open Model Model.Mvp60 Proofs.Mvp60Flush
 open Model.Seq (App Halt Arch stepArch)
 
 /-- what is assumed of the program: small, fresh forward slots, straight-line -/
@@ -25,6 +26,37 @@ structure ProgR (app : App) : Prop where
   sl : StraightLineRet app = true
 
 theorem Prog.toR {app : App} (h : Prog app) : ProgR app := ⟨h.small, h.nofwd, slr_of_sl app h.sl⟩
+
+/-- the class the proofs work with (package R60b, step 2): conditional branches allowed -/
+structure ProgG (app : App) : Prop where
+  small : app.instrs.length < 250
+  nofwd : ∀ g ∈ app.instrs, fwdOf g = {}
+  cls : ProvedClass app = true
+
+theorem ProgR.toG {app : App} (h : ProgR app) : ProgG app := ⟨h.small, h.nofwd, proved_of_slr app h.sl⟩
+
+/-- the program has no conditional branch (then nothing is ever flushed) -/
+def NoCond (app : App) : Prop := app.instrs.all (fun i => !i.instructionType.IsConditionalBranch) = true
+
+/-- sequence ids: with `ctx.sequenceID = 0` (what `NewContext` installs; MVP-6.0 never changes it) the sequence id of an
+instruction is its pc, and the results on the write bus belong to instructions before the architectural pc -/
+structure Seqs (app : App) (s : State) (a : Arch) : Prop where
+  sid : s.ctx.sequenceID = 0 ∨ NoCond app
+  rseq : ¬ NoCond app → s.ctx.sequenceID = 0 → ∀ r ∈ runners s, r.seq = r.pc
+  wseq : ¬ NoCond app → s.ctx.sequenceID = 0 → ∀ ec ∈ s.writeBus.inside, ec.seq.toInt < a.pc.toInt
+
+theorem Seqs.mono {app : App} {s s' : State} {a : Arch} (h : Seqs app s a) (hsid : s'.ctx.sequenceID = s.ctx.sequenceID)
+    (hr : ∀ r ∈ runners s', r ∈ runners s ∨ (s.ctx.sequenceID = 0 → r.seq = r.pc))
+    (hw : ∀ ec ∈ s'.writeBus.inside, ec ∈ s.writeBus.inside) : Seqs app s' a := by
+  refine ⟨by rw [hsid]; exact h.sid, ?_, ?_⟩
+  · intro hnc h0 r hmem
+    rw [hsid] at h0
+    rcases hr r hmem with h1 | h1
+    · exact h.rseq hnc h0 r h1
+    · exact h1 h0
+  · intro hnc h0 ec hec
+    rw [hsid] at h0
+    exact h.wseq hnc h0 ec (hw ec hec)
 
 /-- the runner is a `ret` -/
 def isRet (x : Runner) : Prop := (x.instr.instructionType == Gen.InstructionType.Ret) = true
@@ -42,6 +74,9 @@ structure Mid (app : App) (s : State) (a : Arch) (i : Nat) : Prop where
   retQ : 1 ≤ s.eus.length → ∀ x ∈ s.executeBus.queue, isRet x → s.executeBus.queue = [x] ∧ i = 0
   /-- a `ret` issued in this cycle is alone on the execute bus -/
   retBuf : ∀ e ∈ s.executeBus.buffer, isRet e.2 → s.executeBus.queue = [] ∧ s.executeBus.buffer = [(s.cycles + 1, e.2)]
+  seqs : Seqs app s a
+  /-- at most one execute unit (no two instructions execute in one tick), or a program that never flushes -/
+  k1 : s.eus.length ≤ 1 ∨ NoCond app
 
 /-- what the execute units leave alone -/
 structure EuKeep (s s' : State) : Prop where
@@ -55,11 +90,16 @@ structure EuKeep (s s' : State) : Prop where
   wql : s'.writeBus.queueLength = s.writeBus.queueLength
   xql : s'.executeBus.queueLength = s.executeBus.queueLength
   xq : s'.executeBus.queue.length ≤ s.executeBus.queue.length
+  ctx : s'.ctx = s.ctx
+  fu : s'.fu = s.fu
+  decodeBus : s'.decodeBus = s.decodeBus
+  wbl : s'.writeBus.bufferLength = s.writeBus.bufferLength
 
-theorem EuKeep.refl (s : State) : EuKeep s s := ⟨rfl, rfl, rfl, rfl, rfl, rfl, rfl, rfl, rfl, Nat.le_refl _⟩
+theorem EuKeep.refl (s : State) : EuKeep s s := ⟨rfl, rfl, rfl, rfl, rfl, rfl, rfl, rfl, rfl, Nat.le_refl _, rfl, rfl, rfl, rfl⟩
 theorem EuKeep.trans {a b c : State} (h1 : EuKeep a b) (h2 : EuKeep b c) : EuKeep a c :=
   ⟨h2.wq.trans h1.wq, h2.wus.trans h1.wus, h2.eul.trans h1.eul, h2.cyc.trans h1.cyc, h2.pend.trans h1.pend,
-   h2.mmu.trans h1.mmu, h2.mode.trans h1.mode, h2.wql.trans h1.wql, h2.xql.trans h1.xql, Nat.le_trans h2.xq h1.xq⟩
+   h2.mmu.trans h1.mmu, h2.mode.trans h1.mode, h2.wql.trans h1.wql, h2.xql.trans h1.xql, Nat.le_trans h2.xq h1.xq,
+   h2.ctx.trans h1.ctx, h2.fu.trans h1.fu, h2.decodeBus.trans h1.decodeBus, h2.wbl.trans h1.wbl⟩
 
 theorem runners_cons (s : State) (x : Runner) (q : List Runner) (h : s.executeBus.queue = x :: q) :
     runners s = x :: runners { s with executeBus := { s.executeBus with queue := q } } := by
@@ -73,12 +113,39 @@ structure Retired (app : App) (s s' : State) (a : Arch) : Prop where
   eus : ∀ eu ∈ s'.eus, eu.co = .none ∧ eu.memory = []
   keep : EuKeep s s'
 
-/-- one execute unit: nothing to do, or the next step of the unpipelined machine, or its defined error, or its `ret` -/
-theorem euCycle_sim (app : App) (hp : ProgR app) (s s' : State) (a : Arch) (i : Nat) (out : EuOut)
+/-- an execute unit has executed a taken conditional branch whose target is not the next instruction: `a'` is the
+architectural state behind the branch, everything on the write bus is older than or is the branch (it will be kept) -/
+structure FlushNow (app : App) (s s' : State) (a' : Arch) (from_ : Word) : Prop where
+  back : Back s'.ctx s'.writeBus.inside s'.executeBus.inside a'
+  allKept : ∀ ec ∈ s'.writeBus.inside, kept from_ ec = true
+  npc : ∃ n', a'.pc = pcOf n' ∧ n' ≤ app.instrs.length
+  eus : ∀ eu ∈ s'.eus, eu.co = .none ∧ eu.memory = []
+  keep : EuKeep s s'
+  cond : ¬ NoCond app
+  k : 1 ≤ s.eus.length
+
+theorem ite_pair_snd {α β : Type} (c : Prop) [Decidable c] (a b : α) (f : β) : (if c then (a, f) else (b, f)).2 = f := by
+  split <;> rfl
+
+theorem ite_pair_fst {α β : Type} (c : Prop) [Decidable c] (a b : α) (f : β) :
+    (if c then (a, f) else (b, f)).1 = if c then a else b := by
+  split <;> rfl
+
+/-- the state an execute unit leaves behind when it has executed `x` with result `e` -/
+def afterExec (s : State) (i : Nat) (x : Runner) (q : List Runner) (bu : BranchUnit) (e : Gen.Execution) : State :=
+  { s with bu := bu, executeBus := { s.executeBus with queue := q }, eus := s.eus.set i { co := .none, memory := [], runner := some x }, writeBus := s.writeBus.add (ecOf x e) s.cycles, executed := s.executed + 1 }
+
+theorem pcOf_lt (j k : Nat) (hk : k < 2 ^ 20) (h : j < k) : (pcOf j).toInt < (pcOf k).toInt := by
+  rw [pcOf_toInt j (by omega), pcOf_toInt k hk]; omega
+
+/-- one execute unit: nothing to do, or the next step of the unpipelined machine, or its defined error, or its `ret`,
+or a taken branch that flushes -/
+theorem euCycle_sim (app : App) (hp : ProgG app) (s s' : State) (a : Arch) (i : Nat) (out : EuOut)
     (hm : Mid app s a i) (hi : i < s.eus.length) (h : euCycle app s i = .ok (s', out)) :
     (out = .none ∧ ∃ a', (a' = a ∨ ∃ c, stepArch Proofs.Mvp4.dc app a = .next a' c) ∧ Mid app s' a' (i + 1) ∧ EuKeep s s') ∨
     (out = .err ∧ ∃ c, stepArch Proofs.Mvp4.dc app a = .halt .err c) ∨
-    (out = .ret ∧ Retired app s s' a) := by
+    (out = .ret ∧ Retired app s s' a) ∨
+    (∃ a' from_, out = .flush from_ a'.pc ∧ (∃ c, stepArch Proofs.Mvp4.dc app a = .next a' c) ∧ FlushNow app s s' a' from_) := by
   obtain ⟨eu, hget⟩ := get_lt s.eus i hi
   obtain ⟨hco, hmem⟩ := hm.eus eu (List.mem_of_getElem? hget)
   have hK : 1 ≤ s.eus.length := by omega
@@ -89,8 +156,8 @@ theorem euCycle_sim (app : App) (hp : ProgR app) (s s' : State) (a : Arch) (i : 
     simp only [get_none _ hq, pure, Except.pure, Except.ok.injEq, Prod.mk.injEq] at h
     obtain ⟨rfl, rfl⟩ := h
     left
-    refine ⟨rfl, a, Or.inl rfl, ?_, ⟨rfl, rfl, rfl, rfl, rfl, rfl, rfl, rfl, rfl, by simp only [hq]; exact Nat.le_refl _⟩⟩
-    refine ⟨hm.front, hm.back, hm.eus, Nat.le_succ_of_le hm.wbi, hm.room, hm.stamps, hm.wbl, ?_, hm.retBuf⟩
+    refine ⟨rfl, a, Or.inl rfl, ?_, EuKeep.refl _⟩
+    refine ⟨hm.front, hm.back, hm.eus, Nat.le_succ_of_le hm.wbi, hm.room, hm.stamps, hm.wbl, ?_, hm.retBuf, hm.seqs, hm.k1⟩
     intro _ x hx; simp only [hq] at hx; cases hx
   | cons x q =>
     simp only [get_some _ x q hq] at h
@@ -101,11 +168,16 @@ theorem euCycle_sim (app : App) (hp : ProgR app) (s s' : State) (a : Arch) (i : 
     have hchain := hf.chain
     rw [hrun] at hchain
     obtain ⟨hxok, hchain'⟩ := hchain
-    have hslx := sl_of_get app hp.sl n0 x.instr hxok.2
-    have hnfx := hp.nofwd x.instr (List.mem_of_getElem? hxok.2)
+    have hxmem : x.instr ∈ app.instrs := List.mem_of_getElem? hxok.2
+    have hgx := g_of_get app hp.cls n0 x.instr hxok.2
+    have hnfx := hp.nofwd x.instr hxmem
+    have hn0 : n0 < app.instrs.length := by
+      rcases Nat.lt_or_ge n0 app.instrs.length with h' | h'
+      · exact h'
+      · have := hxok.2; rw [List.getElem?_eq_none h'] at this; cases this
     have hback := hm.back
     rw [hxin] at hback
-    obtain ⟨hexe, hretc, herr⟩ := hback.executeR hp.small hpc hxok hslx hnfx
+    obtain ⟨hexe, hretc, herr⟩ := hback.executeG hp.small hpc hxok hgx hnfx
     -- no `ret` is left in the queue behind `x`
     have hnoret : ∀ y ∈ q, ¬ isRet y := by
       intro y hy hry
@@ -122,19 +194,67 @@ theorem euCycle_sim (app : App) (hp : ProgR app) (s s' : State) (a : Arch) (i : 
     have hcan : s.writeBus.canAdd = true := by
       have := hm.room; rw [hq] at this; simp only [List.length_cons] at this
       simp only [BufferedBus.canAdd, hm.wbl, bne_iff_ne, ne_eq]; omega
-    have hsl' := hslx
-    simp only [slrInstr, Bool.and_eq_true, Bool.not_eq_true', Gen.InstructionType.IsBranch, Bool.or_eq_false_iff] at hsl'
-    obtain ⟨_, hub, hcb⟩ := hsl'
+    have hg' := hgx
+    simp only [gInstr, Bool.and_eq_true, Bool.not_eq_true'] at hg'
+    obtain ⟨⟨_, hub⟩, _⟩ := hg'
     unfold coPrepareRun at h
-    simp only [hcan, Bool.not_true, Bool.false_eq_true, if_false, buAssert, hub, hcb, slr_memoryRead x.instr hslx,
+    simp only [hcan, Bool.not_true, Bool.false_eq_true, if_false, buAssert, hub, g_memoryRead app x.instr hgx,
       List.isEmpty_nil, Bool.not_true] at h
     unfold coRun at h
-    simp only [hmem, setEu] at h
     have heus' : ∀ eu' ∈ s.eus.set i { co := .none, memory := [], runner := some x }, eu'.co = .none ∧ eu'.memory = [] := by
       intro eu' hmem'
       rcases List.mem_or_eq_of_mem_set hmem' with h1 | h1
       · exact hm.eus eu' h1
       · subst h1; exact ⟨rfl, rfl⟩
+    have hrunS : runners { s with executeBus := { s.executeBus with queue := q } } ⊆ runners s := by
+      rw [hrun]; exact fun r hr => List.mem_cons_of_mem _ hr
+    -- `Mid` after a step that does not flush: the architectural pc is the next instruction's
+    have hsm := hp.small
+    have hmid : ∀ (e : Gen.Execution) (a' : Arch) (bu : BranchUnit), a'.pc = pcOf (n0 + 1) →
+        Back s.ctx (s.writeBus.inside ++ [ecOf x e]) ({ s.executeBus with queue := q } : BufferedBus Runner).inside a' →
+        Mid app (afterExec s i x q bu e) a' (i + 1) := by
+      intro e a' bu hpc' hback'
+      unfold afterExec
+      refine ⟨⟨n0 + 1, hpc', ?_⟩, ?_, heus', ?_, ?_, ?_, hm.wbl, ?_, ?_, ?_, ?_⟩
+      rotate_right
+      · rcases hm.k1 with h1 | h1
+        · exact Or.inl (by simp only [List.length_set]; exact h1)
+        · exact Or.inr h1
+      · have hlen : (runners s).length = (runners { s with executeBus := { s.executeBus with queue := q } }).length + 1 := by
+          rw [hrun]; simp only [List.length_cons]
+        refine ⟨hchain', ?_, ?_, hf.clean, hf.dlen, hf.duOk⟩
+        · have := hf.inRange; rw [hlen] at this
+          simp only [runners] at this ⊢; omega
+        · have := hf.pcs; rw [hlen] at this
+          have e1 : n0 + 1 + (runners { s with executeBus := { s.executeBus with queue := q } }).length =
+              n0 + ((runners { s with executeBus := { s.executeBus with queue := q } }).length + 1) := by omega
+          simp only [runners] at this e1 ⊢
+          rw [e1]; exact this
+      · simp only [inside_add]; exact hback'
+      · simp only [BufferedBus.add, List.length_append, List.length_cons, List.length_nil]; have := hm.wbi; omega
+      · simp only [BufferedBus.add, List.length_append, List.length_cons, List.length_nil]
+        have := hm.room; rw [hq] at this; simp only [List.length_cons] at this; omega
+      · intro en hen
+        simp only [BufferedBus.add, List.mem_append, List.mem_singleton] at hen
+        rcases hen with hen | hen
+        · exact hm.stamps en hen
+        · subst hen; exact Int.le_refl _
+      · intro _ y hy hry; exact absurd hry (hnoret y hy)
+      · intro en hen hre; exact absurd hre (hnobuf en hen)
+      · refine ⟨hm.seqs.sid, fun hnc h0 r hr => hm.seqs.rseq hnc h0 r (hrunS hr), ?_⟩
+        intro hnc h0 ec hec
+        simp only [inside_add] at hec
+        rw [hpc']
+        rcases List.mem_append.mp hec with hec | hec
+        · have := hm.seqs.wseq hnc h0 ec hec
+          rw [hpc] at this
+          have := pcOf_lt n0 (n0 + 1) (by omega) (by omega)
+          omega
+        · simp only [List.mem_singleton] at hec; subst hec
+          have h1 := hm.seqs.rseq hnc h0 x (by rw [hrun]; exact List.mem_cons_self)
+          simp only [ecOf, h1, hxok.1]
+          exact pcOf_lt n0 (n0 + 1) (by omega) (by omega)
+    simp only [hmem, setEu, ite_pair_snd, ite_pair_fst] at h
     cases hr : x.instr.run s.ctx app.labels x.pc [] 0#32 with
     | error f =>
       cases f with
@@ -149,7 +269,7 @@ theorem euCycle_sim (app : App) (hp : ProgR app) (s s' : State) (a : Arch) (i : 
         obtain ⟨hhalt, hty⟩ := hretc e hr hret
         simp only [hr, hret, if_true, pure, Except.pure, Except.ok.injEq, Prod.mk.injEq] at h
         obtain ⟨rfl, rfl⟩ := h
-        right; right
+        right; right; left
         have hq0 : q = [] := by
           have := (hm.retQ hK x (by rw [hq]; exact List.mem_cons_self) hty).1
           rw [hq] at this
@@ -157,37 +277,58 @@ theorem euCycle_sim (app : App) (hp : ProgR app) (s s' : State) (a : Arch) (i : 
           exact this
         subst hq0
         exact ⟨rfl, hhalt, hback.dropHead, rfl, heus', ⟨rfl, rfl, by simp only [List.length_set], rfl, rfl, rfl, rfl, rfl, rfl,
-          by simp only [hq, List.length_cons, List.length_nil]; omega⟩⟩
+          by simp only [hq, List.length_cons, List.length_nil]; omega, rfl, rfl, rfl, rfl⟩⟩
       | false =>
-        obtain ⟨a', hstep, hpc', hback', hmc, hpcc⟩ := hexe e hr hret
-        simp only [hr, hret, hmc, hpcc, Bool.false_eq_true, if_false, bind, Except.bind, pure, Except.pure, hub,
-          Except.ok.injEq, Prod.mk.injEq] at h
-        obtain ⟨rfl, rfl⟩ := h
-        left
-        refine ⟨rfl, a', Or.inr hstep, ?_, ⟨rfl, rfl, by simp only [List.length_set], rfl, rfl, rfl, rfl, rfl, rfl,
-          by simp only [hq, List.length_cons]; omega⟩⟩
-        refine ⟨⟨n0 + 1, hpc', ?_⟩, ?_, heus', ?_, ?_, ?_, hm.wbl, ?_, ?_⟩
-        · have hlen : (runners s).length = (runners { s with executeBus := { s.executeBus with queue := q } }).length + 1 := by
-            rw [hrun]; simp only [List.length_cons]
-          refine ⟨hchain', ?_, ?_, hf.clean, hf.dlen, hf.duOk⟩
-          · have := hf.inRange; rw [hlen] at this
-            simp only [runners] at this ⊢; omega
-          · have := hf.pcs; rw [hlen] at this
-            have e1 : n0 + 1 + (runners { s with executeBus := { s.executeBus with queue := q } }).length =
-                n0 + ((runners { s with executeBus := { s.executeBus with queue := q } }).length + 1) := by omega
-            simp only [runners] at this e1 ⊢
-            rw [e1]; exact this
-        · simp only [inside_add]; exact hback'
-        · simp only [BufferedBus.add, List.length_append, List.length_cons, List.length_nil]; have := hm.wbi; omega
-        · simp only [BufferedBus.add, List.length_append, List.length_cons, List.length_nil]
-          have := hm.room; rw [hq] at this; simp only [List.length_cons] at this; omega
-        · intro en hen
-          simp only [BufferedBus.add, List.mem_append, List.mem_singleton] at hen
-          rcases hen with hen | hen
-          · exact hm.stamps en hen
-          · subst hen; exact Int.le_refl _
-        · intro _ y hy hry; exact absurd hry (hnoret y hy)
-        · intro en hen hre; exact absurd hre (hnobuf en hen)
+        obtain ⟨a', n', hstep, hpc', hn'le, hback', hmc, hnf1, hnf2⟩ := hexe e hr hret
+        simp only [hr, hret, hmc, Bool.false_eq_true, if_false, bind, Except.bind, pure, Except.pure, hub] at h
+        have hkeep : ∀ bu : BranchUnit, EuKeep s (afterExec s i x q bu e) := fun bu =>
+          ⟨rfl, rfl, by simp only [afterExec, List.length_set], rfl, rfl, rfl, rfl, rfl, rfl,
+           by simp only [afterExec, hq, List.length_cons]; omega, rfl, rfl, rfl, rfl⟩
+        cases hpcc : e.PcChange with
+        | false =>
+          have hn' := hnf1 hpcc
+          subst hn'
+          simp only [hpcc, Bool.false_eq_true, if_false, Except.ok.injEq, Prod.mk.injEq] at h
+          obtain ⟨rfl, rfl⟩ := h
+          left
+          split
+          all_goals exact ⟨rfl, a', Or.inr hstep, hmid e a' _ hpc' hback', hkeep _⟩
+        | true =>
+          obtain ⟨hnext, hcb⟩ := hnf2 hpcc
+          simp only [hpcc, hcb, if_true, buShouldFlush, Bool.not_true, Bool.false_eq_true, if_false, Except.ok.injEq,
+            Prod.mk.injEq] at h
+          obtain ⟨rfl, rfl⟩ := h
+          by_cases hfl : (x.pc + 4#32 != e.NextPc) = true
+          · -- the branch is taken to somewhere else: flush
+            right; right; right
+            simp only [hfl, if_true]
+            have hncond : ¬ NoCond app := by
+              intro hnc
+              simp only [NoCond, List.all_eq_true, Bool.not_eq_true'] at hnc
+              have := hnc x.instr hxmem
+              rw [hcb] at this; cases this
+            have h0 : s.ctx.sequenceID = 0 := by
+              rcases hm.seqs.sid with h0 | h0
+              · exact h0
+              · exact absurd h0 hncond
+            refine ⟨a', x.pc, by rw [hpc', hnext], hstep, ⟨by simp only [inside_add]; exact hback', ?_, ⟨n', hpc', hn'le⟩, heus', hkeep _, hncond, hK⟩⟩
+            intro ec hec
+            simp only [inside_add] at hec
+            simp only [kept, Bool.not_eq_true', Bool.and_eq_false_iff]
+            right
+            simp only [BitVec.slt, decide_eq_false_iff_not, Int.not_lt]
+            rcases List.mem_append.mp hec with hec | hec
+            · have := hm.seqs.wseq hncond h0 ec hec
+              rw [hpc, ← hxok.1] at this
+              omega
+            · simp only [List.mem_singleton] at hec; subst hec
+              have h1 := hm.seqs.rseq hncond h0 x (by rw [hrun]; exact List.mem_cons_self)
+              simp only [ecOf, h1]; exact Int.le_refl _
+          · -- the branch is taken to the next instruction: no flush
+            have heq : x.pc + 4#32 = e.NextPc := by simpa using hfl
+            left
+            have hpc'' : a'.pc = pcOf (n0 + 1) := by rw [hpc', ← hnext, ← heq, hxok.1, pcOf_succ]
+            exact ⟨by simp only [hfl, Bool.false_eq_true, if_false], a', Or.inr hstep, hmid e a' _ hpc'' hback', hkeep _⟩
 
 /-- once the execute bus queue is empty the remaining execute units find nothing -/
 theorem eus_noop (app : App) : ∀ (n i : Nat) (s : State) (acc : EuAcc), i + n = s.eus.length →
@@ -206,13 +347,24 @@ theorem eus_noop (app : App) : ∀ (n i : Nat) (s : State) (acc : EuAcc), i + n 
     simp only [eusCycle, bind, Except.bind, h1]
     exact ih (i + 1) s acc (by omega) hidle hq
 
+theorem max_zero_pcOf (n : Nat) (h : n < 2 ^ 20) : (if BitVec.slt (0 : Word) (pcOf n) = true then pcOf n else 0) = pcOf n := by
+  by_cases hn : n = 0
+  · subst hn; simp [pcOf]
+  · have : BitVec.slt (0 : Word) (pcOf n) = true := by
+      simp only [BitVec.slt, decide_eq_true_eq, pcOf_toInt n h]
+      have : (0 : Word).toInt = 0 := by decide
+      rw [this]; omega
+    simp only [this, if_true]
+
 /-- the loop over the execute units -/
-theorem eusCycle_sim (app : App) (hp : ProgR app) (a0 : Arch) : ∀ (n i : Nat) (s s' : State) (acc acc' : EuAcc) (k : Nat) (a : Arch),
+theorem eusCycle_sim (app : App) (hp : ProgG app) (a0 : Arch) : ∀ (n i : Nat) (s s' : State) (acc acc' : EuAcc) (k : Nat) (a : Arch),
     i + n = s.eus.length → Mid app s a i → Proofs.Mvp4.seqIter app k a0 = some a →
     acc = {} → eusCycle app n i s acc = .ok (s', acc') →
     (acc' = {} ∧ ∃ k' a', Proofs.Mvp4.seqIter app k' a0 = some a' ∧ Mid app s' a' (i + n) ∧ EuKeep s s') ∨
     (acc'.err = true ∧ ∃ k' a', Proofs.Mvp4.seqIter app k' a0 = some a' ∧ ∃ c, stepArch Proofs.Mvp4.dc app a' = .halt .err c) ∨
-    (acc' = { ret := true } ∧ ∃ k' a', Proofs.Mvp4.seqIter app k' a0 = some a' ∧ Retired app s s' a') := by
+    (acc' = { ret := true } ∧ ∃ k' a', Proofs.Mvp4.seqIter app k' a0 = some a' ∧ Retired app s s' a') ∨
+    (∃ a' from_, acc' = { flush := true, from_ := from_, pc := a'.pc } ∧
+      ∃ k', Proofs.Mvp4.seqIter app k' a0 = some a' ∧ FlushNow app s s' a' from_) := by
   intro n
   induction n with
   | zero =>
@@ -227,7 +379,8 @@ theorem eusCycle_sim (app : App) (hp : ProgR app) (a0 : Arch) : ∀ (n i : Nat) 
     · cases h
     · rename_i v hv
       obtain ⟨s1, out⟩ := v
-      rcases euCycle_sim app hp s s1 a i out hm (by omega) hv with ⟨rfl, a1, hstep, hm1, hk1⟩ | ⟨rfl, c, hc⟩ | ⟨rfl, hret⟩
+      rcases euCycle_sim app hp s s1 a i out hm (by omega) hv with
+        ⟨rfl, a1, hstep, hm1, hk1⟩ | ⟨rfl, c, hc⟩ | ⟨rfl, hret⟩ | ⟨a1, from_, rfl, ⟨c, hc⟩, hfl⟩
       · simp only at h
         have hk' : ∃ k1, Proofs.Mvp4.seqIter app k1 a0 = some a1 := by
           rcases hstep with rfl | ⟨c, hc⟩
@@ -235,14 +388,16 @@ theorem eusCycle_sim (app : App) (hp : ProgR app) (a0 : Arch) : ∀ (n i : Nat) 
           · exact ⟨k + 1, Proofs.Mvp4.seqIter_succ hk hc⟩
         obtain ⟨k1, hk1'⟩ := hk'
         have := ih (i + 1) s1 s' acc acc' k1 a1 (by rw [hk1.eul]; omega) hm1 hk1' hacc h
-        rcases this with ⟨e1, k2, a2, e2, e3, e4⟩ | e | ⟨e1, k2, a2, e2, e3⟩
+        rcases this with ⟨e1, k2, a2, e2, e3, e4⟩ | e | ⟨e1, k2, a2, e2, e3⟩ | ⟨a2, f2, e1, k2, e2, e3⟩
         · left
           refine ⟨e1, k2, a2, e2, ?_, hk1.trans e4⟩
           have : i + 1 + n = i + (n + 1) := by omega
           rw [← this]; exact e3
         · right; left; exact e
-        · right; right
+        · right; right; left
           exact ⟨e1, k2, a2, e2, ⟨e3.halt, e3.back, e3.xq, e3.eus, hk1.trans e3.keep⟩⟩
+        · right; right; right
+          exact ⟨a2, f2, e1, k2, e2, ⟨e3.back, e3.allKept, e3.npc, e3.eus, hk1.trans e3.keep, e3.cond, by rw [← hk1.eul]; exact e3.k⟩⟩
       · simp only [pure, Except.pure, Except.ok.injEq, Prod.mk.injEq] at h
         obtain ⟨_, rfl⟩ := h
         right; left; exact ⟨rfl, k, a, hk, c, hc⟩
@@ -250,8 +405,22 @@ theorem eusCycle_sim (app : App) (hp : ProgR app) (a0 : Arch) : ∀ (n i : Nat) 
         rw [eus_noop app n (i + 1) s1 _ (by rw [hret.keep.eul]; omega) hret.eus hret.xq] at h
         simp only [Except.ok.injEq, Prod.mk.injEq] at h
         obtain ⟨rfl, rfl⟩ := h
-        right; right
+        right; right; left
         exact ⟨by rw [hacc], k, a, hk, hret⟩
+      · -- a flush: there is no further execute unit
+        have hn : n = 0 := by
+          rcases hm.k1 with h1 | h1
+          · omega
+          · exact absurd h1 hfl.cond
+        subst hn
+        simp only [eusCycle, pure, Except.pure, Except.ok.injEq, Prod.mk.injEq] at h
+        obtain ⟨rfl, rfl⟩ := h
+        right; right; right
+        obtain ⟨n', hn', hle⟩ := hfl.npc
+        have hsm := hp.small
+        refine ⟨a1, from_, ?_, k + 1, Proofs.Mvp4.seqIter_succ hk hc, hfl⟩
+        rw [hacc]
+        simp only [hn', max_zero_pcOf n' (by omega)]
 
 /-! ### the write units -/
 
@@ -271,13 +440,15 @@ structure WuKeep (s s' : State) : Prop where
   wbuf : s'.writeBus.buffer = s.writeBus.buffer
   wql : s'.writeBus.queueLength = s.writeBus.queueLength
   wbl : s'.writeBus.bufferLength = s.writeBus.bufferLength
+  sid : s'.ctx.sequenceID = s.ctx.sequenceID
+  wsub : ∀ ec ∈ s'.writeBus.inside, ec ∈ s.writeBus.inside
 
-theorem WuKeep.refl (s : State) : WuKeep s s := ⟨rfl, rfl, rfl, rfl, rfl, rfl, rfl, rfl, rfl, rfl, rfl, rfl, rfl, rfl⟩
+theorem WuKeep.refl (s : State) : WuKeep s s := ⟨rfl, rfl, rfl, rfl, rfl, rfl, rfl, rfl, rfl, rfl, rfl, rfl, rfl, rfl, rfl, fun _ h => h⟩
 theorem WuKeep.trans {a b c : State} (h1 : WuKeep a b) (h2 : WuKeep b c) : WuKeep a c :=
   ⟨h2.fu.trans h1.fu, h2.decodeBus.trans h1.decodeBus, h2.du.trans h1.du, h2.controlBus.trans h1.controlBus,
    h2.cuPendings.trans h1.cuPendings, h2.executeBus.trans h1.executeBus, h2.eus.trans h1.eus, h2.wus.trans h1.wus,
    h2.mmu.trans h1.mmu, h2.cycles.trans h1.cycles, h2.mode.trans h1.mode, h2.wbuf.trans h1.wbuf, h2.wql.trans h1.wql,
-   h2.wbl.trans h1.wbl⟩
+   h2.wbl.trans h1.wbl, h2.sid.trans h1.sid, fun ec h => h1.wsub ec (h2.wsub ec h)⟩
 
 theorem Front.of_eq {app : App} {s s' : State} {n0 : Nat} (h : Front app s n0) (e1 : s'.executeBus = s.executeBus)
     (e2 : s'.cuPendings = s.cuPendings) (e3 : s'.controlBus = s.controlBus) (e4 : s'.fu = s.fu)
@@ -307,17 +478,19 @@ theorem wuCycle_sim (s s' : State) (a : Arch) (j : Nat) (hj : j < s.wus.length) 
     rw [hin] at hb
     have hwb := hb.writeback
     have hnm := hb.nomem ec (List.mem_cons_self)
+    have hsid : ∀ c : Model.Context, (deletePendingRegisters c ec.readRegisters ec.writeRegisters).sequenceID = c.sequenceID := fun _ => rfl
     split at h
     · rename_i hrc
       simp only [pure, Except.pure, Except.ok.injEq] at h
       subst h
       simp only [hrc, if_true] at hwb
-      exact ⟨hwb, ⟨rfl, rfl, rfl, rfl, rfl, rfl, rfl, rfl, rfl, rfl, rfl, rfl, rfl, rfl⟩, by simp only [hq, List.length_cons]; omega⟩
+      have hin' := hin
+      exact ⟨hwb, ⟨rfl, rfl, rfl, rfl, rfl, rfl, rfl, rfl, rfl, rfl, rfl, rfl, rfl, rfl, hsid _, fun e he => by rw [hin]; exact List.mem_cons_of_mem _ he⟩, by simp only [hq, List.length_cons]; omega⟩
     · rename_i hrc
       simp only [hnm, Bool.false_eq_true, if_false, pure, Except.pure, Except.ok.injEq] at h
       subst h
       simp only [hrc, if_false] at hwb
-      exact ⟨hwb, ⟨rfl, rfl, rfl, rfl, rfl, rfl, rfl, rfl, rfl, rfl, rfl, rfl, rfl, rfl⟩, by simp only [hq, List.length_cons]; omega⟩
+      exact ⟨hwb, ⟨rfl, rfl, rfl, rfl, rfl, rfl, rfl, rfl, rfl, rfl, rfl, rfl, rfl, rfl, hsid _, fun e he => by rw [hin]; exact List.mem_cons_of_mem _ he⟩, by simp only [hq, List.length_cons]; omega⟩
 
 theorem wus_sim (a : Arch) : ∀ (n i : Nat) (s s' : State), i + n = s.wus.length → (∀ wu ∈ s.wus, wu.co = .none) →
     Back s.ctx s.writeBus.inside s.executeBus.inside a →
@@ -358,12 +531,12 @@ theorem connect_queue_le {α : Type} (b : BufferedBus α) (c : Int) (h : (b.queu
   · exact h
   · exact Proofs.Bus.connectLoop_length _ _ _ _ h
 
-theorem issued_back {c : Int} {pushed : List Runner} {x y : Model.Context × BufferedBus Runner}
-    (h : Issued c pushed x y) : ∀ {W : List ExecCtx} {a : Arch}, Back x.1 W x.2.inside a →
+theorem issued_back {c p : Int} {pushed : List Runner} {x y : Model.Context × BufferedBus Runner}
+    (h : Issued c p pushed x y) : ∀ {W : List ExecCtx} {a : Arch}, Back x.1 W x.2.inside a →
     Back y.1 W y.2.inside a ∧ y.2.queue = x.2.queue ∧ y.2.queueLength = x.2.queueLength ∧ y.2.inside = x.2.inside ++ pushed := by
   induction h with
-  | nil x => intro W a hb; exact ⟨hb, rfl, rfl, by simp⟩
-  | cons r rs ctx bus y hz _ _ ih =>
+  | nil p x => intro W a hb; exact ⟨hb, rfl, rfl, by simp⟩
+  | cons p r rs ctx bus y hz _ _ _ ih =>
     intro W a hb
     have hb' := hb.issue r hz
     have : Back (addPendingRegisters ctx r.instr, bus.add r c).1 W (addPendingRegisters ctx r.instr, bus.add r c).2.inside a := by
@@ -372,12 +545,12 @@ theorem issued_back {c : Int} {pushed : List Runner} {x y : Model.Context × Buf
     exact ⟨i1, i2, i3, by rw [i4]; simp only [inside_add, List.append_assoc, List.singleton_append]⟩
 
 /-- a `ret` issued in cycle `c` is alone on the execute bus -/
-theorem issued_ret {c : Int} {pushed : List Runner} {x y : Model.Context × BufferedBus Runner}
-    (h : Issued c pushed x y) : (∀ e ∈ x.2.buffer, ¬ isRet e.2) →
+theorem issued_ret {c p : Int} {pushed : List Runner} {x y : Model.Context × BufferedBus Runner}
+    (h : Issued c p pushed x y) : (∀ e ∈ x.2.buffer, ¬ isRet e.2) →
     ∀ e ∈ y.2.buffer, isRet e.2 → y.2.queue = [] ∧ y.2.buffer = [(c + 1, e.2)] := by
   induction h with
-  | nil x => intro hn e he hr; exact absurd hr (hn e he)
-  | cons r rs ctx bus y hz hret hiss ih =>
+  | nil p x => intro hn e he hr; exact absurd hr (hn e he)
+  | cons p r rs ctx bus y hz hret _ hiss ih =>
     intro hn
     by_cases hr : isRet r
     · obtain ⟨hemp, hrs⟩ := hret hr
@@ -396,7 +569,7 @@ theorem issued_ret {c : Int} {pushed : List Runner} {x y : Model.Context × Buff
       · subst he; exact hr
 
 /-- the state between two ticks -/
-structure Rel (app : App) (s : State) (a : Arch) : Prop where
+structure RelG (app : App) (s : State) (a : Arch) : Prop where
   front : ∃ n0, a.pc = pcOf n0 ∧ Front app s n0
   back : Back s.ctx s.writeBus.inside s.executeBus.inside a
   eus : ∀ eu ∈ s.eus, eu.co = .none ∧ eu.memory = []
@@ -417,6 +590,8 @@ structure Rel (app : App) (s : State) (a : Arch) : Prop where
   retQ : 1 ≤ s.eus.length → ∀ x ∈ s.executeBus.queue, ¬ isRet x
   /-- a `ret` issued in the last cycle is alone on the execute bus and due -/
   retBuf : ∀ e ∈ s.executeBus.buffer, isRet e.2 → s.executeBus.queue = [] ∧ s.executeBus.buffer = [(s.cycles + 1, e.2)]
+  seqs : Seqs app s a
+  k1 : s.eus.length ≤ 1 ∨ NoCond app
 
 /-- the state between two ticks of the drain after a `ret` -/
 structure RelB (app : App) (s : State) (a : Arch) : Prop where
@@ -426,9 +601,122 @@ structure RelB (app : App) (s : State) (a : Arch) : Prop where
   l1d : s.mmu.l1d.lines = []
   mode : s.mode = .retB
 
+/-- what the drain before a flush needs to come back to `RelG`: the drain invariant with the architectural registers as
+target, and the facts `m.flush(pc)` does not touch -/
+structure FFacts (app : App) (s : State) (a' : Arch) (from_ pc : Word) : Prop where
+  inv : DrainInv from_ a'.ctx.Registers s
+  npc : ∃ n', a'.pc = pcOf n' ∧ n' ≤ app.instrs.length
+  pceq : pc = a'.pc
+  mem : a'.ctx.Memory = s.ctx.Memory
+  ratS : s.ctx.rat = false
+  txS : s.ctx.Transaction.entries = []
+  ratA : a'.ctx.rat = false
+  txA : a'.ctx.Transaction.entries = []
+  eusM : ∀ eu ∈ s.eus, eu.memory = []
+  eqw : s.eus.length = s.wus.length
+  wql : s.writeBus.queueLength = 2
+  wbl : s.writeBus.bufferLength = 2
+  xql : s.executeBus.queueLength = 2
+  dlen : s.decodeBus.bufferLength = 2
+  l1d : s.mmu.l1d.lines = []
+  clean : s.fu.toCleanPending = false
+  sid : s.ctx.sequenceID = 0 ∨ NoCond app
+  k1 : s.eus.length ≤ 1 ∨ NoCond app
+  wk : 1 ≤ s.wus.length
+
+/-- the state between two ticks of the drain before a flush -/
+def RelF (app : App) (s : State) (a' : Arch) : Prop :=
+  ∃ i from_ pc, s.mode = .flushW i from_ pc ∧ i < s.wus.length ∧ FFacts app s a' from_ pc
+
+theorem FFacts.connect {app : App} {s : State} {a' : Arch} {from_ pc : Word} (h : FFacts app s a' from_ pc) (c : Int) :
+    FFacts app { s with writeBus := s.writeBus.connect c } a' from_ pc :=
+  ⟨h.inv.connect c, h.npc, h.pceq, h.mem, h.ratS, h.txS, h.ratA, h.txA, h.eusM, h.eqw,
+   by (show (s.writeBus.connect c).queueLength = 2); rw [(connect_lengths _ _).1]; exact h.wql,
+   by (show (s.writeBus.connect c).bufferLength = 2); rw [(connect_lengths _ _).2]; exact h.wbl,
+   h.xql, h.dlen, h.l1d, h.clean, h.sid, h.k1, h.wk⟩
+
+theorem FFacts.mode {app : App} {s : State} {a' : Arch} {from_ pc : Word} (h : FFacts app s a' from_ pc) (m : Mode) :
+    FFacts app { s with mode := m } a' from_ pc :=
+  ⟨⟨h.inv.wus, h.inv.nomem, h.inv.regs⟩, h.npc, h.pceq, h.mem, h.ratS, h.txS, h.ratA, h.txA, h.eusM, h.eqw, h.wql, h.wbl,
+   h.xql, h.dlen, h.l1d, h.clean, h.sid, h.k1, h.wk⟩
+
+theorem FFacts.keep {app : App} {s s' : State} {a' : Arch} {from_ pc : Word} (h : FFacts app s a' from_ pc)
+    (hi : DrainInv from_ a'.ctx.Registers s') (k : DrainKeep s s') : FFacts app s' a' from_ pc :=
+  ⟨hi, h.npc, h.pceq, by rw [k.mem]; exact h.mem, by rw [k.rat]; exact h.ratS, by rw [k.tx]; exact h.txS, h.ratA, h.txA,
+   by rw [k.eus]; exact h.eusM, by rw [k.eus, k.wus]; exact h.eqw, by rw [k.wql]; exact h.wql, by rw [k.wbl]; exact h.wbl,
+   by rw [k.executeBus]; exact h.xql, by rw [k.decodeBus]; exact h.dlen, by rw [k.mmu]; exact h.l1d, by rw [k.fu]; exact h.clean,
+   by rw [k.sid]; exact h.sid, by rw [k.eus]; exact h.k1, by rw [k.wus]; exact h.wk⟩
+
+/-- `m.flush(pc)` after a completed drain: the relation between normal ticks holds for the state behind the branch -/
+theorem flushAll_rel (app : App) (hsm : app.instrs.length < 250) (s : State) (a' : Arch) (from_ pc : Word)
+    (h : FFacts app s a' from_ pc) (hw : s.writeBus.inside = []) (c : Int) (n : Nat) :
+    RelG app { flushAll s pc with cycles := c, mode := .normal, flushes := n } a' := by
+  obtain ⟨n', hn', hle⟩ := h.npc
+  have hregs := h.inv.regs
+  rw [hw] at hregs
+  simp only [List.filter_nil, applyW] at hregs
+  have hx : (flushAll s pc).executeBus.inside = [] := by simp [flushAll, BufferedBus.clean, BufferedBus.inside]
+  have hwb : (flushAll s pc).writeBus.inside = [] := by simp [flushAll, BufferedBus.clean, BufferedBus.inside]
+  have hrn : runners { flushAll s pc with cycles := c, mode := .normal, flushes := n } = [] := by
+    simp [runners, flushAll, BufferedBus.clean, BufferedBus.inside, Queue.new]
+  refine ⟨⟨n', hn', ?_⟩, ?_, ?_, h.inv.wus, rfl, Nat.zero_le _, Nat.zero_le _, ?_, h.wql, h.wbl, h.xql, Nat.zero_le _, ?_, Nat.zero_le _,
+    h.l1d, rfl, ?_, ?_, ?_, ?_⟩
+  · refine ⟨by rw [hrn]; trivial, by rw [hrn]; simp only [List.length_nil, Nat.add_zero]; exact hle, ?_, h.clean, h.dlen, rfl⟩
+    rw [hrn]
+    refine ⟨n', trivial, ?_, Or.inl (by simp), ?_, ?_, ?_, ?_⟩
+    · show pc = pcOf (n' + 0); rw [h.pceq, hn']; rfl
+    · show n' + 0 + 0 ≤ app.instrs.length + 2; omega
+    · intro _; show n' + 0 ≤ app.instrs.length; omega
+    · intro hc; cases hc
+    · intro hc; cases hc
+  · refine ⟨?_, h.mem, h.ratS, h.txS, h.ratA, h.txA, ?_, ?_, ?_, ?_, ?_⟩
+    · show a'.ctx.Registers = applyW (flushAll s pc).writeBus.inside s.ctx.Registers
+      rw [hwb]; exact hregs.symm
+    · intro ec hec; rw [show (flushAll s pc).writeBus.inside = [] from hwb] at hec; cases hec
+    · intro r _
+      show ((cntW (flushAll s pc).writeBus.inside r + cntX (flushAll s pc).executeBus.inside r : Nat) : Int) ≤ GoMap.get1 ({} : GoMap Reg Int) r
+      rw [hwb, hx]; exact Int.le_refl _
+    · intro x hxm; rw [show (flushAll s pc).executeBus.inside = [] from hx] at hxm; cases hxm
+    · show List.Pairwise _ (flushAll s pc).executeBus.inside; rw [hx]; exact List.Pairwise.nil
+    · intro ec hec; rw [show (flushAll s pc).writeBus.inside = [] from hwb] at hec; cases hec
+  · intro eu hmem
+    simp only [flushAll, List.mem_map] at hmem
+    obtain ⟨eu0, h0, rfl⟩ := hmem
+    exact ⟨rfl, h.eusM eu0 h0⟩
+  · intro e he; simp [flushAll, BufferedBus.clean] at he
+  · show ((flushAll s pc).eus).length = s.wus.length
+    simp only [flushAll, List.length_map]; exact h.eqw
+  · intro _ x hxm; simp [flushAll, BufferedBus.clean] at hxm
+  · intro e he; simp [flushAll, BufferedBus.clean] at he
+  · refine ⟨h.sid, ?_, ?_⟩
+    · intro _ _ r hr; rw [hrn] at hr; cases hr
+    · intro _ _ ec hec; rw [show (flushAll s pc).writeBus.inside = [] from hwb] at hec; cases hec
+  · show ((flushAll s pc).eus).length ≤ 1 ∨ NoCond app
+    simp only [flushAll, List.length_map]; exact h.k1
+
+/-- the test at the head of every write unit's drain loop, with the facts that rebuild the relation afterwards -/
+theorem goFlush_sim (app : App) (hsm : app.instrs.length < 250) (a' : Arch) (from_ pc : Word) : ∀ (n i : Nat) (s : State),
+    i + n = s.wus.length → FFacts app s a' from_ pc → (s.writeBus.inside = [] ∨ 1 ≤ n) →
+    (goFlush s from_ pc n i).2 = .running ∧ (RelF app (goFlush s from_ pc n i).1 a' ∨ RelG app (goFlush s from_ pc n i).1 a') := by
+  intro n
+  induction n with
+  | zero =>
+    intro i s _ h hw
+    have hw' : s.writeBus.inside = [] := by rcases hw with hw | hw; exact hw; omega
+    exact ⟨rfl, Or.inr (flushAll_rel app hsm s a' from_ pc h hw' _ _)⟩
+  | succ n ih =>
+    intro i s hlen h hw
+    obtain ⟨wu, hget⟩ := get_lt s.wus i (by omega)
+    simp only [goFlush, hget]
+    split
+    · exact ⟨rfl, Or.inl ⟨i, from_, pc, rfl, by (show i < s.wus.length); omega, h.mode _⟩⟩
+    · rename_i hc
+      simp only [Bool.or_eq_true, Bool.not_eq_true', not_or, Bool.not_eq_false] at hc
+      exact ih (i + 1) s (by omega) h (Or.inl (inside_nil_of_isEmpty _ hc.2))
+
 /-- what a tick has to do with the unpipelined run from `a0` -/
-def TickPost (app : App) (a0 : Arch) (s' : State) : Event → Prop
-  | .running => ∃ k a, Proofs.Mvp4.seqIter app k a0 = some a ∧ (Rel app s' a ∨ RelB app s' a)
+def TickPostG (app : App) (a0 : Arch) (s' : State) : Event → Prop
+  | .running => ∃ k a, Proofs.Mvp4.seqIter app k a0 = some a ∧ (RelG app s' a ∨ RelB app s' a ∨ RelF app s' a)
   | .done .offEnd => ∃ k a, Proofs.Mvp4.seqIter app k a0 = some a ∧ (∃ c, stepArch Proofs.Mvp4.dc app a = .halt .offEnd c) ∧
       s'.ctx.Registers = a.ctx.Registers ∧ s'.ctx.Memory = a.ctx.Memory
   | .done .err => ∃ k a, Proofs.Mvp4.seqIter app k a0 = some a ∧ ∃ c, stepArch Proofs.Mvp4.dc app a = .halt .err c
@@ -443,10 +731,6 @@ theorem stepArch_offEnd (app : App) (a : Arch) (n0 : Nat) (hpc : a.pc = pcOf n0)
   have : ¬ ((n0 : Int) < (app.instrs.length : Int)) := by omega
   simp only [this, not_false_eq_true, if_true]
   exact ⟨_, rfl⟩
-
-theorem inside_nil_of_isEmpty {α : Type} (b : BufferedBus α) (h : b.isEmpty = true) : b.inside = [] := by
-  simp only [BufferedBus.isEmpty, Bool.and_eq_true, beq_iff_eq, List.length_eq_zero_iff] at h
-  simp only [BufferedBus.inside, h.1, h.2, List.map_nil, List.append_nil]
 
 theorem flush_empty (u : Model.Mmu.Mmu) (mem : List Byte) (h : u.l1d.lines = []) :
     Model.Mmu.flush cfg u mem = .ok (mem, 0) := by
@@ -501,6 +785,8 @@ structure Ph (app : App) (s : State) (a : Arch) : Prop where
   mode : s.mode = .normal
   retQ : 1 ≤ s.eus.length → ∀ x ∈ s.executeBus.queue, isRet x → s.executeBus.queue = [x]
   noRetBuf : ∀ e ∈ s.executeBus.buffer, ¬ isRet e.2
+  seqs : Seqs app s a
+  k1 : s.eus.length ≤ 1 ∨ NoCond app
 
 theorem connect_split {α : Type} (b : BufferedBus α) (c : Int) :
     ∃ moved, b.buffer = moved ++ (b.connect c).buffer ∧ (b.connect c).queue = b.queue ++ moved.map (·.2) := by
@@ -510,7 +796,7 @@ theorem connect_split {α : Type} (b : BufferedBus α) (c : Int) :
   · obtain ⟨m, h1, h2, _⟩ := Proofs.Bus.connectLoop_spec b.queueLength c b.buffer b.queue
     exact ⟨m, h1, h2⟩
 
-theorem connected_ph (app : App) (s : State) (a : Arch) (hr : Rel app s a) : Ph app (connected s) a := by
+theorem connected_ph (app : App) (s : State) (a : Arch) (hr : RelG app s a) : Ph app (connected s) a := by
   obtain ⟨n0, hpc, hf⟩ := hr.front
   have hw : s.writeBus.connect (s.cycles + 1) = { s.writeBus with queue := s.writeBus.queue ++ s.writeBus.buffer.map (·.2), buffer := [] } :=
     connect_all _ _ (by rw [hr.wq, hr.wql]; simp only [List.length_nil]; have := hr.wb2; omega) hr.stamps
@@ -542,7 +828,10 @@ theorem connected_ph (app : App) (s : State) (a : Arch) (hr : Rel app s a) : Ph 
           exact absurd hrx (hnb e (by rw [hm1]; exact List.mem_append_left _ he))
       · intro e he
         exact hnb e (by rw [hm1]; exact List.mem_append_right _ he)
-  refine ⟨⟨n0, hpc, ?_⟩, ?_, hr.eus, hr.wus, ?_, ?_, ?_, ?_, ?_, by (show (s.executeBus.connect (s.cycles + 1)).queue.length ≤ 2); omega, hr.eqw, hr.pend, hr.l1d, hr.mode, hret.1, hret.2⟩
+  refine ⟨⟨n0, hpc, ?_⟩, ?_, hr.eus, hr.wus, ?_, ?_, ?_, ?_, ?_, by (show (s.executeBus.connect (s.cycles + 1)).queue.length ≤ 2); omega, hr.eqw, hr.pend, hr.l1d, hr.mode, hret.1, hret.2, ?_, hr.k1⟩
+  rotate_right
+  · exact hr.seqs.mono rfl (fun r hmem => Or.inl (by simpa only [runners, connected, inside_connect] using hmem))
+      (fun ec hec => by simpa only [connected, inside_connect] using hec)
   · have hrun : runners (connected s) = runners s := by
       simp only [runners, connected, inside_connect]
     refine ⟨by rw [hrun]; exact hf.chain, by rw [hrun]; exact hf.inRange, ?_, hf.clean, ?_, hf.duOk⟩
@@ -555,7 +844,7 @@ theorem connected_ph (app : App) (s : State) (a : Arch) (hr : Rel app s a) : Ph 
   · simp only [connected, (connect_lengths _ _).2]; exact hr.wbl
   · simp only [connected, (connect_lengths _ _).1]; exact hr.xql
 
-theorem fetch_ph (app : App) (hp : ProgR app) (s s2 : State) (a : Arch) (h : Ph app s a) (hr : fetchCycle app s = .ok s2) :
+theorem fetch_ph (app : App) (hp : ProgG app) (s s2 : State) (a : Arch) (h : Ph app s a) (hr : fetchCycle app s = .ok s2) :
     Ph app s2 a := by
   obtain ⟨n0, hpc, hf⟩ := h.front
   unfold fetchCycle at hr
@@ -568,16 +857,17 @@ theorem fetch_ph (app : App) (hp : ProgR app) (s s2 : State) (a : Arch) (h : Ph 
     subst hr
     obtain ⟨e1, e2, e3, e4⟩ := fetchCore_pcs app hp.small _ _ _ _ _ _ _ _ hf.clean hf.dlen hf.pcs hv
     exact ⟨⟨n0, hpc, ⟨hf.chain, hf.inRange, e1, e2, e3, hf.duOk⟩⟩, h.back, h.eus, h.wus, h.wbuf, h.wqk, h.wql, h.wbl,
-      h.xql, h.xq, h.eqw, h.pend, by (show mmu'.l1d.lines = []); rw [e4]; exact h.l1d, h.mode, h.retQ, h.noRetBuf⟩
+      h.xql, h.xq, h.eqw, h.pend, by (show mmu'.l1d.lines = []); rw [e4]; exact h.l1d, h.mode, h.retQ, h.noRetBuf,
+      h.seqs.mono rfl (fun r hmem => Or.inl hmem) (fun ec hec => hec), h.k1⟩
 
-theorem decode_ph (app : App) (hp : ProgR app) (s s3 : State) (a : Arch) (h : Ph app s a) (hr : decodeCycle app s = .ok s3) :
+theorem decode_ph (app : App) (hp : ProgG app) (s s3 : State) (a : Arch) (h : Ph app s a) (hr : decodeCycle app s = .ok s3) :
     Ph app s3 a := by
   obtain ⟨n0, hpc, hf⟩ := h.front
   unfold decodeCycle decodeCore at hr
   by_cases hdr : s.du.ret = true
   · simp only [hdr, if_true, bind, Except.bind, pure, Except.pure, Except.ok.injEq] at hr
     subst hr
-    exact ⟨⟨n0, hpc, hf⟩, h.back, h.eus, h.wus, h.wbuf, h.wqk, h.wql, h.wbl, h.xql, h.xq, h.eqw, h.pend, h.l1d, h.mode, h.retQ, h.noRetBuf⟩
+    exact ⟨⟨n0, hpc, hf⟩, h.back, h.eus, h.wus, h.wbuf, h.wqk, h.wql, h.wbl, h.xql, h.xq, h.eqw, h.pend, h.l1d, h.mode, h.retQ, h.noRetBuf, h.seqs, h.k1⟩
   · simp only [hdr, hf.duOk, Bool.false_eq_true, if_false, bind, Except.bind] at hr
     split at hr
     · cases hr
@@ -599,12 +889,23 @@ theorem decode_ph (app : App) (hp : ProgR app) (s s3 : State) (a : Arch) (h : Ph
         rw [e]; exact hpcs
       have hin' : n0 + (s.executeBus.inside ++ s.cuPendings.items.map (·.2)).length + s.controlBus.inside.length ≤ app.instrs.length := by
         simp only [List.length_append]; omega
-      obtain ⟨e1, e2, e3, e4, e5⟩ := decodeLoop_front app hp.small hp.sl s.ctx s.cycles s.fu
+      have hsq := decodeLoop_seq app s.ctx s.cycles _ s.du du' s.decodeBus d' s.controlBus c' hv
+      obtain ⟨e1, e2, e3, e4, e5⟩ := decodeLoop_front app hp.small hp.cls s.ctx s.cycles s.fu
         (n0 + (s.executeBus.inside ++ s.cuPendings.items.map (·.2)).length) _ s.du du' s.decodeBus d' s.controlBus c'
         hchain.2 hin' hpcs' hv
       refine ⟨⟨n0, hpc, ⟨?_, ?_, ?_, hf.clean, by (show d'.bufferLength = 2); rw [e5]; exact hf.dlen,
           by (show du'.pendingBranchResolution = false); rw [e4]; exact hf.duOk⟩⟩,
-        h.back, h.eus, h.wus, h.wbuf, h.wqk, h.wql, h.wbl, h.xql, h.xq, h.eqw, h.pend, h.l1d, h.mode, h.retQ, h.noRetBuf⟩
+        h.back, h.eus, h.wus, h.wbuf, h.wqk, h.wql, h.wbl, h.xql, h.xq, h.eqw, h.pend, h.l1d, h.mode, h.retQ, h.noRetBuf, ?_, h.k1⟩
+      rotate_right
+      · refine h.seqs.mono rfl ?_ (fun ec hec => hec)
+        intro r hmem
+        simp only [runners, List.mem_append] at hmem ⊢
+        rcases hmem with (hmem | hmem) | hmem
+        · exact Or.inl (Or.inl (Or.inl hmem))
+        · exact Or.inl (Or.inl (Or.inr hmem))
+        · rcases hsq r hmem with h1 | h1
+          · exact Or.inl (Or.inr h1)
+          · right; intro h0; rw [h1, h0]; simp
       · simp only [runners]; rw [chain_append]; exact ⟨hchain.1, e1⟩
       · simp only [runners, List.length_append] at e2 ⊢; omega
       · simp only [runners, List.length_append] at e3 ⊢
@@ -625,7 +926,9 @@ theorem control_mid (app : App) (s : State) (a : Arch) (h : Ph app s a) : Mid ap
     simp only [runners, b4, List.append_assoc]
     rw [← List.append_assoc pushed, i2]
   refine ⟨⟨⟨n0, hpc, ⟨by rw [hrun]; exact hf.chain, by rw [hrun]; exact hf.inRange, ?_, by rw [fr.fu]; exact hf.clean,
-      by rw [fr.decodeBus]; exact hf.dlen, by rw [fr.du]; exact hf.duOk⟩⟩, ?_, by rw [fr.eus]; exact h.eus, ?_, ?_, ?_, ?_, ?_, ?_⟩,
+      by rw [fr.decodeBus]; exact hf.dlen, by rw [fr.du]; exact hf.duOk⟩⟩, ?_, by rw [fr.eus]; exact h.eus, ?_, ?_, ?_, ?_, ?_, ?_,
+      h.seqs.mono (issued_sid i1).1 (fun r hmem => Or.inl (by rw [hrun] at hmem; exact hmem)) (fun ec hec => by rw [fr.writeBus] at hec; exact hec),
+      by rw [fr.eus]; exact h.k1⟩,
     by rw [fr.wus]; exact h.wus, by rw [fr.writeBus, fr.wus]; exact h.wqk, by rw [fr.writeBus]; exact h.wql,
     by rw [b3]; exact h.xql, by rw [b2]; exact h.xq, by rw [fr.eus, fr.wus]; exact h.eqw, i3, by rw [fr.mmu]; exact h.l1d,
     by rw [fr.mode]; exact h.mode⟩
@@ -646,12 +949,12 @@ theorem control_mid (app : App) (s : State) (a : Arch) (h : Ph app s a) : Mid ap
 theorem goRetB_sim (app : App) (a0 : Arch) (s s' : State) (a : Arch) (k : Nat) (ev : Event)
     (hk : Proofs.Mvp4.seqIter app k a0 = some a) (hh : ∃ c, stepArch Proofs.Mvp4.dc app a = .halt .ret c)
     (hb : Back s.ctx s.writeBus.inside s.executeBus.inside a) (hw : ∀ wu ∈ s.wus, wu.co = .none)
-    (hl : s.mmu.l1d.lines = []) (h : goRetB s = .ok (s', ev)) : TickPost app a0 s' ev := by
+    (hl : s.mmu.l1d.lines = []) (h : goRetB s = .ok (s', ev)) : TickPostG app a0 s' ev := by
   unfold goRetB at h
   split at h
   · simp only [pure, Except.pure, Except.ok.injEq, Prod.mk.injEq] at h
     obtain ⟨rfl, rfl⟩ := h
-    exact ⟨k, a, hk, Or.inr ⟨hh, hb, hw, hl, rfl⟩⟩
+    exact ⟨k, a, hk, Or.inr (Or.inl ⟨hh, hb, hw, hl, rfl⟩)⟩
   · rename_i hc
     simp only [Bool.or_eq_true, Bool.not_eq_true', not_or, Bool.not_eq_false] at hc
     unfold finish at h
@@ -682,10 +985,10 @@ theorem eus_idle_any (s : State) (h : ∀ eu ∈ s.eus, eu.co = .none ∧ eu.mem
 
 /-- **one tick is a number of steps of the unpipelined machine** (straight-line register-only programs that may `ret`,
 any number of execute and write units) -/
-theorem cycleM_simR (app : App) (hp : ProgR app) (a0 : Arch) (s s' : State) (a : Arch) (k : Nat) (ev : Event)
-    (hk : Proofs.Mvp4.seqIter app k a0 = some a) (hr : Rel app s a ∨ RelB app s a) (h : cycleM app s = .ok (s', ev)) :
-    TickPost app a0 s' ev := by
-  rcases hr with hr | hr
+theorem cycleM_simG (app : App) (hp : ProgG app) (a0 : Arch) (s s' : State) (a : Arch) (k : Nat) (ev : Event)
+    (hk : Proofs.Mvp4.seqIter app k a0 = some a) (hr : RelG app s a ∨ RelB app s a ∨ RelF app s a) (h : cycleM app s = .ok (s', ev)) :
+    TickPostG app a0 s' ev := by
+  rcases hr with hr | hr | hr
   · rw [cycleM_normal_eq app s hr.mode] at h
     simp only [bind, Except.bind] at h
     have ph1 := connected_ph app s a hr
@@ -704,7 +1007,7 @@ theorem cycleM_simR (app : App) (hp : ProgR app) (a0 : Arch) (s s' : State) (a :
           obtain ⟨s5, acc⟩ := v
           simp only at h
           rcases eusCycle_sim app hp a0 _ 0 _ s5 {} acc k a (by omega) hmid hk rfl hv with
-            ⟨rfl, k', a', hk', hm5, keep⟩ | ⟨herr, k', a', hk', c, hc⟩ | ⟨rfl, k', a', hk', hret⟩
+            ⟨rfl, k', a', hk', hm5, keep⟩ | ⟨herr, k', a', hk', c, hc⟩ | ⟨rfl, k', a', hk', hret⟩ | ⟨a', from_, rfl, k', hk', hfl⟩
           · -- no error, no `ret`: the write units, then the end of the tick
             simp only [afterEus, Bool.false_eq_true, if_false, bind, Except.bind] at h
             have hwus5 : ∀ wu ∈ s5.wus, wu.co = .none := by rw [keep.wus]; exact c_wus
@@ -753,7 +1056,7 @@ theorem cycleM_simR (app : App) (hp : ProgR app) (a0 : Arch) (s s' : State) (a :
               · simp only [pure, Except.pure, Except.ok.injEq, Prod.mk.injEq] at h
                 obtain ⟨rfl, rfl⟩ := h
                 refine ⟨k', a', hk', Or.inl ⟨⟨n0, hpc, hf6⟩, b6, by rw [wk.eus]; exact hm5.eus, by rw [wk.wus]; exact hwus5, hq6,
-                  ?_, ?_, ?_, ?_, ?_, ?_, ?_, ?_, ?_, hl1d, ?_, ?_, ?_⟩⟩
+                  ?_, ?_, ?_, ?_, ?_, ?_, ?_, ?_, ?_, hl1d, ?_, ?_, ?_, ?_, ?_⟩⟩
                 · rw [wk.wbuf]; have := hm5.room; omega
                 · rw [wk.wbuf, wk.wus, keep.wus]; have h1 := hm5.wbi; have h2 := c_eqw; omega
                 · rw [wk.wbuf, hcyc]; exact hm5.stamps
@@ -771,6 +1074,8 @@ theorem cycleM_simR (app : App) (hp : ProgR app) (a0 : Arch) (s s' : State) (a :
                   rw [keep.eul] at hK
                   omega
                 · rw [wk.executeBus, hcyc]; exact hm5.retBuf
+                · exact hm5.seqs.mono wk.sid (fun r hmem => Or.inl (by simpa only [runners, wk.executeBus, wk.cuPendings, wk.controlBus] using hmem)) wk.wsub
+                · rw [wk.eus]; exact hm5.k1
           · simp only [afterEus, herr, if_true, pure, Except.pure, Except.ok.injEq, Prod.mk.injEq] at h
             obtain ⟨rfl, rfl⟩ := h
             exact ⟨k', a', hk', c, hc⟩
@@ -787,6 +1092,40 @@ theorem cycleM_simR (app : App) (hp : ProgR app) (a0 : Arch) (s s' : State) (a :
               refine goRetB_sim app a0 _ s' a' k' ev hk' hret.halt ?_ (by (show ∀ wu ∈ s6.wus, wu.co = .none); rw [wk.wus]; exact hwus5)
                 (by (show s6.mmu.l1d.lines = []); rw [wk.mmu, hret.keep.mmu]; exact c_l1d) h
               simp only [inside_connect]; exact b6
+          · -- a taken branch has flushed: the write units, then the drain
+            simp only [afterEus, Bool.false_eq_true, if_false, if_true, bind, Except.bind] at h
+            have hwus5 : ∀ wu ∈ s5.wus, wu.co = .none := by rw [hfl.keep.wus]; exact c_wus
+            obtain ⟨n4, _, hf4⟩ := hmid.front
+            have hinv5 : DrainInv from_ a'.ctx.Registers s5 := by
+              refine ⟨hwus5, hfl.back.nomem, ?_⟩
+              rw [List.filter_eq_self.mpr hfl.allKept]
+              exact hfl.back.regs.symm
+            have hsid4 : (controlCycle s3).ctx.sequenceID = 0 ∨ NoCond app := hmid.seqs.sid
+            have hff5 : FFacts app s5 a' from_ a'.pc :=
+              ⟨hinv5, hfl.npc, rfl, hfl.back.mem, hfl.back.ratS, hfl.back.txS, hfl.back.ratA, hfl.back.txA,
+               fun eu he => (hfl.eus eu he).2, by rw [hfl.keep.eul, hfl.keep.wus]; exact c_eqw,
+               by rw [hfl.keep.wql]; exact c_wql, by rw [hfl.keep.wbl]; exact hmid.wbl, by rw [hfl.keep.xql]; exact c_xql,
+               by rw [hfl.keep.decodeBus]; exact hf4.dlen,
+               by rw [hfl.keep.mmu]; exact c_l1d, by rw [hfl.keep.fu]; exact hf4.clean, by rw [hfl.keep.ctx]; exact hsid4,
+               by rw [hfl.keep.eul]; exact hmid.k1, by rw [hfl.keep.wus, ← c_eqw]; exact hfl.k⟩
+            split at h
+            · cases h
+            · rename_i s6 h6
+              unfold wusCycle at h6
+              rw [List.range_eq_range'] at h6
+              obtain ⟨d6, k6⟩ := wus_drain_m1 from_ a'.ctx.Registers s5.wus.length 0 s5 s6 (by omega) hinv5 hfl.allKept h6
+              have hff6 := hff5.keep d6 k6
+              simp only [pure, Except.pure, Except.ok.injEq] at h
+              have hev := congrArg Prod.snd h
+              have hs := congrArg Prod.fst h
+              simp only at hev hs
+              have := goFlush_sim app hp.small a' from_ a'.pc s6.wus.length 0 _ (by simp) (hff6.connect (s6.cycles + 1)) (Or.inr hff6.wk)
+              rw [← hev, ← hs]
+              show TickPostG app a0 _ _
+              rw [this.1]
+              rcases this.2 with h1 | h1
+              · exact ⟨k', a', hk', Or.inr (Or.inr h1)⟩
+              · exact ⟨k', a', hk', Or.inl h1⟩
   · -- the drain after a `ret`
     rw [cycleM_retB_eq app s hr.mode] at h
     simp only [bind, Except.bind] at h
@@ -797,6 +1136,92 @@ theorem cycleM_simR (app : App) (hp : ProgR app) (a0 : Arch) (s s' : State) (a :
       refine goRetB_sim app a0 _ s' a k ev hk hr.halt ?_ (by (show ∀ wu ∈ s1.wus, wu.co = .none); rw [wk.wus]; exact hr.wus)
         (by (show s1.mmu.l1d.lines = []); rw [wk.mmu]; exact hr.l1d) h
       simp only [inside_connect]; exact b1
+
+  · -- the drain before a flush
+    obtain ⟨i, from_, pc, hm, hi, hff⟩ := hr
+    unfold cycleM at h
+    split at h
+    · rename_i hh; rw [hm] at hh; cases hh
+    · rename_i hh; rw [hm] at hh; cases hh
+    · rename_i hh; rw [hm] at hh; cases hh
+    · rename_i i' f' p' hh
+      rw [hm] at hh
+      simp only [Mode.flushW.injEq] at hh
+      obtain ⟨rfl, rfl, rfl⟩ := hh
+      simp only [bind, Except.bind] at h
+      split at h
+      · cases h
+      · rename_i s1 h1
+        have hff0 : FFacts app { s with writeBus := s.writeBus.connect (s.cycles + 1), cycles := s.cycles + 1 } a from_ pc := by
+          have := hff.connect (s.cycles + 1)
+          exact ⟨⟨this.inv.wus, this.inv.nomem, this.inv.regs⟩, this.npc, this.pceq, this.mem, this.ratS, this.txS, this.ratA, this.txA,
+            this.eusM, this.eqw, this.wql, this.wbl, this.xql, this.dlen, this.l1d, this.clean, this.sid, this.k1, this.wk⟩
+        obtain ⟨d1, k1⟩ := wuCycle_drainG from_ from_ a.ctx.Registers
+          { s with writeBus := s.writeBus.connect (s.cycles + 1), cycles := s.cycles + 1 } s1 i hi hff0.inv
+          (by intro ec q _; simp only [kept, Bool.not_not]) h1
+        have hff1 := hff0.keep d1 k1
+        simp only [pure, Except.pure, Except.ok.injEq] at h
+        have hev := congrArg Prod.snd h
+        have hs := congrArg Prod.fst h
+        simp only at hev hs
+        have hlen : s1.wus.length = s.wus.length := by rw [k1.wus]
+        have := goFlush_sim app hp.small a from_ pc (s1.wus.length - i) i s1 (by omega) hff1 (Or.inr (by omega))
+        rw [← hev, ← hs]
+        show TickPostG app a0 _ _
+        rw [this.1]
+        rcases this.2 with h2 | h2
+        · exact ⟨k, a, hk, Or.inr (Or.inr h2)⟩
+        · exact ⟨k, a, hk, Or.inl h2⟩
+
+/-! ### the statements of packages R60 and R60b step 1 (programs without conditional branches, any number of units) -/
+
+/-- the state between two ticks, without the two facts only programs with conditional branches need (`Seqs`, at most
+one execute unit): what holds initially for EVERY program and every number of units -/
+structure Rel (app : App) (s : State) (a : Arch) : Prop where
+  front : ∃ n0, a.pc = pcOf n0 ∧ Front app s n0
+  rest : Seqs app s a → (s.eus.length ≤ 1 ∨ NoCond app) → RelG app s a
+
+theorem RelG.weak {app : App} {s : State} {a : Arch} (h : RelG app s a) : Rel app s a := ⟨h.front, fun _ _ => h⟩
+
+theorem Rel.strong {app : App} {s : State} {a : Arch} (h : Rel app s a) (hn : NoCond app) : RelG app s a :=
+  h.rest ⟨Or.inr hn, fun hc => absurd hn hc, fun hc => absurd hn hc⟩ (Or.inr hn)
+
+/-- what a tick has to do with the unpipelined run from `a0` -/
+def TickPost (app : App) (a0 : Arch) (s' : State) : Event → Prop
+  | .running => ∃ k a, Proofs.Mvp4.seqIter app k a0 = some a ∧ (Rel app s' a ∨ RelB app s' a ∨ RelF app s' a)
+  | .done .offEnd => ∃ k a, Proofs.Mvp4.seqIter app k a0 = some a ∧ (∃ c, stepArch Proofs.Mvp4.dc app a = .halt .offEnd c) ∧
+      s'.ctx.Registers = a.ctx.Registers ∧ s'.ctx.Memory = a.ctx.Memory
+  | .done .err => ∃ k a, Proofs.Mvp4.seqIter app k a0 = some a ∧ ∃ c, stepArch Proofs.Mvp4.dc app a = .halt .err c
+  | .done .ret => ∃ k a, Proofs.Mvp4.seqIter app k a0 = some a ∧ (∃ c, stepArch Proofs.Mvp4.dc app a = .halt .ret c) ∧
+      s'.ctx.Registers = a.ctx.Registers ∧ s'.ctx.Memory = a.ctx.Memory
+  | .done (.panic _) => True
+
+theorem TickPostG.weak {app : App} {a0 : Arch} {s' : State} {ev : Event} (h : TickPostG app a0 s' ev) : TickPost app a0 s' ev := by
+  cases ev with
+  | running =>
+    obtain ⟨k, a, hk, hr⟩ := h
+    refine ⟨k, a, hk, ?_⟩
+    rcases hr with hr | hr | hr
+    · exact Or.inl hr.weak
+    · exact Or.inr (Or.inl hr)
+    · exact Or.inr (Or.inr hr)
+  | done hh => cases hh <;> exact h
+
+theorem noCond_of_slr (app : App) (h : StraightLineRet app = true) : NoCond app := by
+  simp only [StraightLineRet, List.all_eq_true] at h
+  simp only [NoCond, List.all_eq_true, Bool.not_eq_true']
+  intro i hi
+  have := h i hi
+  simp only [slrInstr, Bool.and_eq_true, Bool.not_eq_true', Gen.InstructionType.IsBranch, Bool.or_eq_false_iff] at this
+  exact this.2.2
+
+theorem cycleM_simR (app : App) (hp : ProgR app) (a0 : Arch) (s s' : State) (a : Arch) (k : Nat) (ev : Event)
+    (hk : Proofs.Mvp4.seqIter app k a0 = some a) (hr : Rel app s a ∨ RelB app s a) (h : cycleM app s = .ok (s', ev)) :
+    TickPost app a0 s' ev :=
+  (cycleM_simG app hp.toG a0 s s' a k ev hk
+    (by rcases hr with h1 | h1
+        · exact Or.inl (h1.strong (noCond_of_slr app hp.sl))
+        · exact Or.inr (Or.inl h1)) h).weak
 
 /-- the same for programs without `ret`, from the relation between normal ticks (the statement of package R60) -/
 theorem cycleM_sim (app : App) (hp : Prog app) (a0 : Arch) (s s' : State) (a : Arch) (k : Nat) (ev : Event)
